@@ -16,7 +16,7 @@ RULE = (
     "frozen tables: attribute name per field, stripped text, ISO-8601 creation time, ignored "
     "fields absent, plus the reference-document link; equality of the complete root attrs dict "
     "read through open_alos2. Non-trivial: >= 1 file pointer record."
-    " Stage 'in-place-pairs': two volume directories at the same root, one after the other, both judged."
+    " Stage 'in-place-pairs': two volume directories at the same root, one after the other, both judged. Three cases in seven inject a transient I/O error (the 1st, 2nd or 3rd read of the volume directory file fails once with OSError): the open may fail with that OSError, but a tree that is returned - then, and by the next open - carries exactly the fields of the file."
 )
 ASSUMPTIONS = [
     "layout/volume_directory.json + layout/exposure_volume.json (frozen) are the reference",
@@ -39,6 +39,8 @@ def cases(draw):
         "vseed": draw(st.integers(0, 2**32 - 1)),
         # bytes after the text record (block padding / a further record)
         "trailing": draw(st.sampled_from([None, None, {"volume": "blank"}, {"volume": "nul"}, {"volume": "text"}, {"volume": "random"}])),
+        # the n-th read of the volume directory file fails once with OSError (None: no fault)
+        "io_error": draw(st.sampled_from([None, None, None, None, 1, 2, 3])),
     }
 
 
@@ -49,13 +51,47 @@ def plan(tier):
 
 
 def classify(case):
-    return case["n_file_pointers"] >= 1, [f"pointers={min(case['n_file_pointers'], 3)}+" if case["n_file_pointers"] >= 3 else f"pointers={case['n_file_pointers']}", f"policy={case['policy']}"]
+    return case["n_file_pointers"] >= 1, [f"pointers={min(case['n_file_pointers'], 3)}+" if case["n_file_pointers"] >= 3 else f"pointers={case['n_file_pointers']}", f"policy={case['policy']}", f"io_error={case.get('io_error')}"]
 
 
 def run_case(case):
     spec = common.spec_from(case)
     spec["volume"]["hundredths"] = case["hundredths"]
     files, info = product.build_product(spec)
+    if case.get("io_error"):
+        # the n-th read of the volume directory file fails once with an I/O error (flaky mount,
+        # remote store): the open may fail with that OSError - but a tree that IS returned carries
+        # the fields of the file, now and on the next open
+        from vf import vtrace
+
+        out = []
+        with harness.Materialised(files, "vtrace") as prod:
+            vtrace.STORE.fail_path = info["names"]["volume_directory"]
+            vtrace.STORE.fail_reads = 1
+            vtrace.STORE.fail_skip = case["io_error"] - 1
+            try:
+                tree, err = harness.guard(harness.open_tree, prod.url, use_cache=False)
+            finally:
+                consumed = vtrace.STORE.fail_reads == 0
+                vtrace.STORE.fail_reads = 0
+                vtrace.STORE.fail_skip = 0
+                vtrace.STORE.fail_path = None
+            if err is not None and not isinstance(err, OSError):
+                out.append(harness.disc("exception", "open_alos2 while a read of the volume directory fails", "OSError (or the right tree)", harness.exc_text(err)))
+            elif err is None:
+                flat = {f"/@{k}": v for k, v in tree.attrs.items()}
+                for d in model.check_root_attrs(info["volume_leaves"], flat, harness.disc):
+                    d.setdefault("context", {})["during"] = "an open in which a read of the volume directory file failed with OSError" if consumed else "an open (no read of the volume directory was seen)"
+                    out.append(d)
+            tree, err = harness.guard(harness.open_tree, prod.url, use_cache=False)
+            if err is not None:
+                out.append(harness.disc("exception", "open_alos2 after the transient error", "a tree", harness.exc_text(err)))
+            else:
+                flat = {f"/@{k}": v for k, v in tree.attrs.items()}
+                for d in model.check_root_attrs(info["volume_leaves"], flat, harness.disc):
+                    d.setdefault("context", {})["during"] = "the open after the transient error"
+                    out.append(d)
+        return out
     with harness.Materialised(files, "memory") as prod:
         tree, err = harness.guard(harness.open_tree, prod.url, use_cache=False)
         if err is not None:
